@@ -73,8 +73,10 @@ class Model(object):
                 return "ValueError"
         return None
 
-    def add_node(self, n, **attrs):
-        self.nodes.setdefault(n, {}).update(attrs)
+    def add_node(*args, **attrs):
+        # (self, node) positionally only: attribute names such as 'n' or 'self' are legal keywords here
+        self, node = args
+        self.nodes.setdefault(node, {}).update(attrs)
 
     def clear(self, edges_only=False):
         """G.clear() / G.clear_edges(): all interactions (and, for clear, nodes and graph attributes) are gone"""
